@@ -6,6 +6,7 @@ Timing theorems are about `checkTimeouts`, the silence timers of `UdpProtocol::p
 Running state; the cut-off theorem is about `SyncLayer::synchronized_inputs`.
 -/
 import GgrsModel.Model.Inventory
+import GgrsModel.Proofs.Demo
 import GgrsModel.Model.Sites.Protocol
 import GgrsModel.Model.Sites.P2pSession
 import GgrsModel.Proofs.Endpoint
@@ -257,3 +258,21 @@ example (s : P2P) (R : Nat → List (Input × InputStatus)) (n : Nat)
     ∃ gh, LkInvD s gh ⟨0, R⟩ := ⟨_, LkInvD_init s R n hq hst hc hdf⟩
 
 end Ggrs
+
+namespace Ggrs
+
+/-- **Non-vacuity of the world with drops.** A freshly built session with an endpoint for its remote
+player satisfies the invariant with dead players, and the world `XStar` contains the run it is
+meant for: two calls simulate frames 0 and 1 predicting the remote player (whose input never
+arrives), the user drops that player with `disconnect_player` (accepted), and the next call rolls
+back to frame 0 and re-simulates both frames with the player's blank input marked Disconnected —
+frames already simulated with predictions included — before simulating frame 2 the same way. -/
+theorem C07_drop_nonvacuous :
+    XInv (demoD0, ⟨0, fun _ => []⟩) ∧ (∃ t', XStar (demoD0, ⟨0, fun _ => []⟩) (demoD4, t')) ∧
+    (getOk demoD4r).2.any (fun r => match r with | .load 0 => true | _ => false) = true ∧
+    (getOk demoD4r).2.getLast? = some (.advance [(7, .confirmed), (0, .disconnected)]) :=
+  ⟨⟨_, _, SessInvD_of_SessInv demoD0 _ _ [] (SessInv_init demoD0 (fun _ => []) 2 rfl rfl rfl) rfl⟩,
+    demo_drop_run _, demo_drop_facts.1, demo_drop_facts.2⟩
+
+end Ggrs
+
